@@ -2,8 +2,9 @@
    Only statements, each closed by [exact] of a lemma proved in coq/Geom/*.v, and their
    assumptions. The models (Geom/GeomModel.v) mirror every notifyVerticesDelete override and
    NifFile::DeleteVertsForShape line by line on top of the utility models of C18. *)
+From NiflyVerif Require Import SegProofs SseRange.
 From NiflyVerif Require Import Res UtilModel UtilSpec EraseProofs GeomModel GeomBase GeomSpec GeomProofs
-  GeomSkinProofs GeomPartProofs GeomStripProofs RefitProofs GeomShapeProofs GeomTwice.
+  GeomSkinProofs GeomPartProofs GeomStripProofs RefitProofs GeomShapeProofs GeomTwice GeomTwiceParts GeomTwiceSegs.
 Local Open Scope N_scope.
 
 (* ---- NiTriShapeData (NiTriShape of OB / FO3 / SK): for every well-formed data block and every
@@ -225,6 +226,160 @@ Theorem C09_weights_twice : forall idx1 idx2 n ws, forallb (fun x => fst x <? n)
 Proof. exact weights_spec_twice. Qed.
 Print Assumptions C09_weights_twice.
 
+(* ---- delete-twice = delete-union, continued (coq/Geom/GeomTwiceParts.v): strips, vertex maps,
+   LOCKEDNORM lists, prepared partitions, the NiSkinPartition block with RemoveEmptyPartitions, the
+   dismember list, the skin instance, every NiGeometryData kind, BSDynamic / BSMeshLOD, and
+   DeleteVertsForShape as a whole *)
+
+(* "survivors, re-indexed, in order" on an index list: a strip of NiTriStripsData, a partition's
+   vertex map *)
+Theorem C09_strip_twice : forall idx1 idx2 n s, Forall (fun p => p < n) s ->
+  strip_spec idx2 (strip_spec idx1 s) = strip_spec (union2 idx1 idx2 n) s.
+Proof. exact strip_spec_twice. Qed.
+Print Assumptions C09_strip_twice.
+
+(* LOCKEDNORM lists (sorted by the first call; the second sort changes nothing) *)
+Theorem C09_lockednorm_twice : forall idx1 idx2 n v, Forall (fun x => x < n) v ->
+  locked_spec idx2 (locked_spec idx1 v) = locked_spec (union2 idx1 idx2 n) v.
+Proof. exact locked_spec_twice. Qed.
+Print Assumptions C09_lockednorm_twice.
+
+(* a partition's triangles in partition-local (mapped) indices: the positions of the vertex-map
+   entries deleted by the two calls, translated back, are those the union deletes *)
+Theorem C09_mapped_tris_twice : forall idx1 idx2 n vm tris, Forall (fun p => p < n) vm ->
+  forallb (tri_lt (vlen vm)) tris = true ->
+  tris_spec (dlpos idx2 0 (strip_spec idx1 vm)) (tris_spec (dlpos idx1 0 vm) tris) =
+  tris_spec (dlpos (union2 idx1 idx2 n) 0 vm) tris.
+Proof. exact tris_spec_dlpos_twice. Qed.
+Print Assumptions C09_mapped_tris_twice.
+
+(* a prepared partition: vertex map, per-vertex weights and bone indices, triangles (mapped or
+   not), true triangles, counters *)
+Theorem C09_partition_twice : forall idx1 idx2 nv mapped p, part_wf nv mapped p = true ->
+  part_spec idx2 mapped (part_spec idx1 mapped p) = part_spec (union2 idx1 idx2 nv) mapped p.
+Proof. exact part_spec_twice. Qed.
+Print Assumptions C09_partition_twice.
+
+(* NiSkinPartition incl. RemoveEmptyPartitions: a partition emptied by the first call is removed by
+   it; the union empties and removes the same partitions, so the numbering of the remaining ones
+   agrees *)
+Theorem C09_skinpartition_twice : forall idx1 idx2 nv sp, skinpart_wf nv sp = true ->
+  skinpart_spec idx2 (skinpart_spec idx1 sp) = skinpart_spec (union2 idx1 idx2 nv) sp.
+Proof. exact skinpart_spec_twice. Qed.
+Print Assumptions C09_skinpartition_twice.
+
+(* the skin instance: NiSkinData, NiSkinPartition, BSDismemberSkinInstance partition list *)
+Theorem C09_skin_twice : forall idx1 idx2 nv k, skin_wf nv k = true ->
+  skin_spec idx2 (skin_spec idx1 k) = skin_spec (union2 idx1 idx2 nv) k.
+Proof. exact skin_spec_twice. Qed.
+Print Assumptions C09_skin_twice.
+
+(* NiTriStripsData: strips, strip lengths and the triangle counter *)
+Theorem C09_tristrips_twice : forall g idx1 idx2, gd_kind g = GKTriStrips -> gd_wf g = true ->
+  gd_tristrips_spec (gd_tristrips_spec g idx1) idx2 = gd_tristrips_spec g (union2 idx1 idx2 (vlen (gd_verts g))).
+Proof. exact gd_tristrips_spec_twice. Qed.
+Print Assumptions C09_tristrips_twice.
+
+(* every NiGeometryData kind (NiTriShapeData, NiTriStripsData, NiLinesData, bare) *)
+Theorem C09_geomdata_twice : forall g idx1 idx2, gd_wf g = true ->
+  gd_spec idx2 (gd_spec idx1 g) = gd_spec (union2 idx1 idx2 (vlen (gd_verts g))) g.
+Proof. exact gd_spec_twice. Qed.
+Print Assumptions C09_geomdata_twice.
+
+(* BSTriShape / BSDynamicTriShape / BSMeshLODTriShape, every field except the scratch list
+   deletedTris (positions dropped by the LAST call: necessarily different) *)
+Theorem C09_bs_twice : forall b idx1 idx2, bs_core_wf b = true -> bs_kind b <> BSSubIndex ->
+  bs_forget_deleted (bs_spec idx2 (bs_spec idx1 b)) =
+  bs_forget_deleted (bs_spec (union2 idx1 idx2 (vlen (bs_vdata b))) b).
+Proof. exact bs_spec_twice. Qed.
+Print Assumptions C09_bs_twice.
+
+(* NifFile::DeleteVertsForShape as a whole, every geometry kind except BSSubIndexTriShape: the
+   complete results agree (geometry, skin data, partitions, dismember list, LOCKEDNORM lists) *)
+Theorem C09_delete_twice_is_delete_union : forall idx1 idx2 s, shape_wf s = true ->
+  (forall b, sh_bs s = Some b -> bs_kind b <> BSSubIndex) ->
+  shape_view bs_forget_deleted (shape_spec idx2 (shape_spec idx1 s)) =
+  shape_view bs_forget_deleted (shape_spec (union2 idx1 idx2 (shape_nv s)) s).
+Proof. exact shape_spec_twice. Qed.
+Print Assumptions C09_delete_twice_is_delete_union.
+
+(* ... and for every kind incl. BSSubIndexTriShape everything except its segment tables *)
+Theorem C09_delete_twice_is_delete_union_core : forall idx1 idx2 s, shape_wf s = true ->
+  shape_view bs_forget_segs (shape_spec idx2 (shape_spec idx1 s)) =
+  shape_view bs_forget_segs (shape_spec (union2 idx1 idx2 (shape_nv s)) s).
+Proof. exact shape_spec_twice_core. Qed.
+Print Assumptions C09_delete_twice_is_delete_union_core.
+
+(* in terms of the model of the code: two calls run, and give the union's result *)
+Theorem C09_delete_verts_twice : forall idx1 idx2 s, idx_ok idx1 -> idx_ok idx2 -> shape_wf s = true ->
+  exists s1 f1 s2 f2,
+    delete_verts s idx1 = Ok (s1, f1) /\ delete_verts s1 idx2 = Ok (s2, f2) /\
+    s2 = shape_spec idx2 (shape_spec idx1 s) /\
+    shape_view bs_forget_segs s2 = shape_view bs_forget_segs (shape_spec (union2 idx1 idx2 (shape_nv s)) s).
+Proof. exact delete_verts_twice. Qed.
+Print Assumptions C09_delete_verts_twice.
+
+(* the union is a legal argument whenever it is not empty (e.g. idx1 has an index inside the range) *)
+Theorem C09_delete_verts_union : forall idx1 idx2 s, shape_wf s = true -> union2 idx1 idx2 (shape_nv s) <> [] ->
+  exists f, delete_verts s (union2 idx1 idx2 (shape_nv s)) = Ok (shape_spec (union2 idx1 idx2 (shape_nv s)) s, f).
+Proof. exact delete_verts_union. Qed.
+Print Assumptions C09_delete_verts_union.
+
+(* ---- the segment tables of BSSubIndexTriShape (coq/Geom/GeomTwiceSegs.v). The re-fit measures the
+   dropped triangles against the CURRENT range starts and never moves the first start, so
+   twice = union needs tables that tile the triangle list from triangle 0 ([sse_tile 0],
+   [segs_tile 0]: what SetSegmentation gives and what the re-fit keeps, C17); for such tables both
+   the SSE segment list and the FO4 segments with their sub-segments come out identical *)
+Theorem C09_sse_segments_twice : forall idx1 idx2 n tris,
+  forallb (tri_lt n) tris = true -> 3 * vlen tris < 4294967296 -> forall segs, sse_tile 0 segs (vlen tris) ->
+  sse_refit_spec (rev (del_pos idx2 (tris_spec idx1 tris))) (sse_refit_spec (rev (del_pos idx1 tris)) segs) =
+  sse_refit_spec (rev (del_pos (union2 idx1 idx2 n) tris)) segs.
+Proof. exact sse_refit_twice. Qed.
+Print Assumptions C09_sse_segments_twice.
+
+Theorem C09_fo4_segments_twice : forall idx1 idx2 n tris,
+  forallb (tri_lt n) tris = true -> 3 * vlen tris < 4294967296 -> forall segs, segs_tile 0 segs (vlen tris) ->
+  segs_refit_spec (rev (del_pos idx2 (tris_spec idx1 tris))) (segs_refit_spec (rev (del_pos idx1 tris)) segs) =
+  segs_refit_spec (rev (del_pos (union2 idx1 idx2 n) tris)) segs.
+Proof. exact segs_refit_twice. Qed.
+Print Assumptions C09_fo4_segments_twice.
+
+(* the triangles dropped by the two calls, translated back, are exactly those the union drops *)
+Theorem C09_dropped_triangles_twice : forall idx1 idx2 n tris, forallb (tri_lt n) tris = true ->
+  del_pos (union2 idx1 idx2 n) tris = union2 (del_pos idx1 tris) (del_pos idx2 (tris_spec idx1 tris)) (vlen tris).
+Proof. exact del_pos_union. Qed.
+Print Assumptions C09_dropped_triangles_twice.
+
+(* BSSubIndexTriShape as a whole (vertex data, triangles, numPrimitives, both tables) *)
+Theorem C09_bssubindex_twice : forall b idx1 idx2,
+  bs_core_wf b = true -> 3 * bs_nt b < 4294967296 -> seg_tables_tiled b ->
+  bs_forget_deleted (bs_sits_spec (bs_sits_spec b idx1) idx2) =
+  bs_forget_deleted (bs_sits_spec b (union2 idx1 idx2 (vlen (bs_vdata b)))).
+Proof. exact bs_sits_spec_twice. Qed.
+Print Assumptions C09_bssubindex_twice.
+
+Theorem C09_segment_tiling_kept : forall b idx,
+  bs_core_wf b = true -> 3 * bs_nt b < 4294967296 -> seg_tables_tiled b -> seg_tables_tiled (bs_sits_spec b idx).
+Proof. exact seg_tables_tiled_kept. Qed.
+Print Assumptions C09_segment_tiling_kept.
+
+(* DeleteVertsForShape, every geometry kind, BSSubIndexTriShape with tiled tables included *)
+Theorem C09_delete_twice_is_delete_union_tiled : forall idx1 idx2 s, shape_wf s = true ->
+  (forall b, sh_bs s = Some b -> bs_kind b = BSSubIndex -> 3 * bs_nt b < 4294967296 /\ seg_tables_tiled b) ->
+  shape_view bs_forget_deleted (shape_spec idx2 (shape_spec idx1 s)) =
+  shape_view bs_forget_deleted (shape_spec (union2 idx1 idx2 (shape_nv s)) s).
+Proof. exact shape_spec_twice_tiled. Qed.
+Print Assumptions C09_delete_twice_is_delete_union_tiled.
+
+(* without the tiling hypothesis the law is false of the model (and of the code): a consistent
+   table whose only range starts at triangle 1 *)
+Theorem C09_bssubindex_twice_refuted :
+  bs_core_wf sits_wit = true /\ seg_tables_wf sits_wit = true /\ union2 [0] [4] 7 = [0; 5] /\
+  exists b1 b2 bu, bs_delete sits_wit [0] = Ok b1 /\ bs_delete b1 [4] = Ok b2 /\ bs_delete sits_wit [0; 5] = Ok bu /\
+    bs_tris b2 = bs_tris bu /\ bs_sse b2 = [mkSsegd 3 2] /\ bs_sse bu = [mkSsegd 3 1].
+Proof. exact bs_sits_twice_refuted. Qed.
+Print Assumptions C09_bssubindex_twice_refuted.
+
 (* ---- non-vacuity: a well-formed NiTriShapeData, a BSTriShape and a bone, with results *)
 Definition C09_ex_gdata : gdata :=
   mkGdata GKTriShape 5 [10; 11; 12; 13; 14] [20; 21; 22; 23; 24] [] [] [] [[30; 31; 32; 33; 34]]
@@ -263,4 +418,36 @@ Proof.
   split; [vm_compute; reflexivity|].
   split; [repeat split; try discriminate; repeat constructor|].
   eexists. split; [vm_compute; reflexivity|]. repeat split; vm_compute; reflexivity.
+Qed.
+
+(* delete [1] then [2] (= original vertex 3) equals delete [1; 3] on the skinned example shape:
+   the hypotheses of the twice-theorems hold and the results are non-trivial *)
+Example C09_example_twice :
+  shape_wf C09_ex_shape = true /\ idx_ok [1] /\ idx_ok [2] /\ union2 [1] [2] (shape_nv C09_ex_shape) = [1; 3] /\
+  exists s1 s2, delete_verts C09_ex_shape [1] = Ok (s1, false) /\ delete_verts s1 [2] = Ok (s2, false) /\
+    delete_verts C09_ex_shape [1; 3] = Ok (s2, false) /\
+    option_map gd_tris (sh_gdata s2) = Some [(0, 1, 2)] /\ sh_locked s2 = [[0; 2]].
+Proof.
+  split; [vm_compute; reflexivity|]. split; [repeat split; try discriminate; repeat constructor|].
+  split; [repeat split; try discriminate; repeat constructor|].
+  split; [vm_compute; reflexivity|].
+  eexists. eexists. split; [vm_compute; reflexivity|]. split; [vm_compute; reflexivity|].
+  split; [vm_compute; reflexivity|]. split; vm_compute; reflexivity.
+Qed.
+
+(* a BSSubIndexTriShape whose SSE table tiles its three triangles (2 + 1): the hypotheses of
+   C09_bssubindex_twice hold, and the two ways agree on a non-trivial result *)
+Definition C09_ex_sits : bsshape :=
+  mkBs BSSubIndex 7 [10; 11; 12; 13; 14; 15; 16] 3 [(0, 1, 2); (3, 4, 5); (3, 4, 6)] [] [] 0 0 0 0 segn_none 2
+       [mkSsegd 0 2; mkSsegd 6 1].
+
+Example C09_example_sits_twice :
+  bs_core_wf C09_ex_sits = true /\ 3 * bs_nt C09_ex_sits < 4294967296 /\ seg_tables_tiled C09_ex_sits /\
+  bs_sse (bs_sits_spec (bs_sits_spec C09_ex_sits [0]) [4]) = [mkSsegd 0 0; mkSsegd 0 1] /\
+  bs_sse (bs_sits_spec C09_ex_sits [0; 5]) = [mkSsegd 0 0; mkSsegd 0 1].
+Proof.
+  split; [vm_compute; reflexivity|]. split; [vm_compute; reflexivity|]. split.
+  - split; [left; reflexivity|right]. cbn [bs_sse bs_nt C09_ex_sits].
+    apply sst_cons; [reflexivity|]. apply (sst_cons 2); [reflexivity|]. apply (sst_nil 3).
+  - split; vm_compute; reflexivity.
 Qed.
